@@ -50,7 +50,7 @@ def exMsg : Msg :=
 
 def exReq : Req :=
   { name := "Ab.", qtype := 1, qclass := 1, do_ := true, ad := false, rd := true, cd := true,
-    fam6 := false, declined := false, subnet := 1 }
+    fam6 := false, declined := false, subnet := 1, edns := true }
 
 /-- Non-vacuity: a two-record answer 1.6 s old is served with TTL 0 by the repaired code. -/
 example : (Simple.hit exMsg 1600000000 exReq).answer =
@@ -500,6 +500,549 @@ example : DOConsistent (fun k => match k with
 example : DOConsistent (fun _ => { exMsg with extra := [] }) := by
   intro d qt qc n; rfl
 
+
+
+/-! ## Provenance: what is served was stored for the same question by an earlier query of the history -/
+
+/-- Every entry of the simple cache stems from a query event of the history processed so far: it holds
+what `set` made of that query's answer, under the key of that answer, stamped with that query's time. -/
+def Simple.InvH (cfg : Cfg) (pre : List Ev) (s : Store) : Prop :=
+  ∀ k e, s k = some e → ∃ now0 q0 a0 d0 life, Ev.query now0 q0 a0 d0 ∈ pre ∧
+    k = Simple.keyOfResp q0 (prepStore cfg q0.qtype a0).1 ∧
+    e.msg = (prepStore cfg q0.qtype a0).1 ∧ (prepStore cfg q0.qtype a0).2 = some life ∧
+    e.at_ = now0 ∧ e.expAt = now0 + life
+
+theorem Simple.invH_mono (cfg : Cfg) (pre ext : List Ev) (s : Store) (h : Simple.InvH cfg pre s) :
+    Simple.InvH cfg (pre ++ ext) s := by
+  intro k e he
+  obtain ⟨now0, q0, a0, d0, life, hm, rest⟩ := h k e he
+  exact ⟨now0, q0, a0, d0, life, List.mem_append_left _ hm, rest⟩
+
+theorem Simple.invH_run (cfg : Cfg) (pre evs : List Ev) (s : Store) (h : Simple.InvH cfg pre s) :
+    Simple.InvH cfg (pre ++ evs) (Simple.run cfg s evs) := by
+  induction evs generalizing pre s with
+  | nil => simpa [Simple.run] using h
+  | cons ev evs ih =>
+    have happ : pre ++ ev :: evs = (pre ++ [ev]) ++ evs := by simp
+    rw [happ]
+    cases ev with
+    | evict k =>
+      apply ih
+      intro k' e he
+      by_cases hk : k' = k
+      · subst hk; simp at he
+      · rw [del_other s k k' hk] at he
+        exact Simple.invH_mono cfg pre _ s h k' e he
+    | query now q a dep =>
+      apply ih
+      show Simple.InvH cfg _ (Simple.step cfg s now q a).store
+      unfold Simple.step Simple.stepWith
+      split
+      · exact Simple.invH_mono cfg pre _ s h
+      · split
+        · exact Simple.invH_mono cfg pre _ s h
+        · rename_i life hp
+          intro k' e he
+          dsimp only at he
+          by_cases hk : k' = Simple.keyOfResp q (prepStore cfg q.qtype a).1
+          · subst hk
+            rw [put_same] at he
+            cases he
+            exact ⟨now, q, a, dep, life, by simp, rfl, rfl, hp, rfl, rfl⟩
+          · rw [put_other s _ k' _ hk] at he
+            exact Simple.invH_mono cfg pre _ s h k' e he
+
+/-- **simple_hit_provenance.**  After any history of the simple cache (any answers, times, evictions):
+a request `q` answered from the cache at time `now` is answered with what `set` made of the answer
+`a0` to an earlier query `q0` *of that history* with the same case-folded name, qtype and qclass, whose
+answer carried `q`'s DO bit; `a0` was complete and cacheable for the asked type `q.qtype` with a
+non-zero lowest TTL; `now` is within the lifetime `set` computed at `q0`'s time `now0`; and the age
+the TTLs are reduced by is exactly `now - now0`. -/
+theorem simple_hit_provenance (cfg : Cfg) (evs : List Ev) (now : Nat) (q : Req) (a : Msg)
+    (hhit : (Simple.step cfg (Simple.run cfg Store.empty evs) now q a).hit = true) :
+    ∃ now0 q0 a0 d0 life, Ev.query now0 q0 a0 d0 ∈ evs ∧
+      q0.name.toLower = q.name.toLower ∧ q0.qtype = q.qtype ∧ q0.qclass = q.qclass ∧
+      msgDO (prepStore cfg q0.qtype a0).1 = q.do_ ∧
+      isCacheable q.qtype a0 = true ∧ findLowestTTL a0 ≠ 0 ∧
+      (prepStore cfg q.qtype a0).2 = some life ∧ now ≤ now0 + life ∧
+      (Simple.step cfg (Simple.run cfg Store.empty evs) now q a).resp =
+        Simple.hit (prepStore cfg q.qtype a0).1 (now - now0) q := by
+  have hinv := Simple.invH_run cfg [] evs Store.empty (by intro k e h; cases h)
+  simp only [List.nil_append] at hinv
+  generalize Simple.run cfg Store.empty evs = s at *
+  unfold Simple.step Simple.stepWith at hhit ⊢
+  split at hhit
+  · rename_i e hl
+    obtain ⟨hk, hexp⟩ := live_some s now _ e hl
+    obtain ⟨now0, q0, a0, d0, life, hmem, hkey, hmsg, hp, hat, hex⟩ := hinv _ e hk
+    have hkey' : Simple.keyOfReq q = Simple.keyOfResp q0 (prepStore cfg q0.qtype a0).1 := hkey
+    simp only [Simple.keyOfReq, Simple.keyOfResp, Key.simple.injEq] at hkey'
+    obtain ⟨hdo, hqt, hqc, hn⟩ := hkey'
+    obtain ⟨h0, hc, _, _, _⟩ := prepStore_some cfg q0.qtype a0 life hp
+    refine ⟨now0, q0, a0, d0, life, hmem, hn.symm, hqt.symm, hqc.symm, hdo.symm, ?_, h0, ?_, ?_, ?_⟩
+    · rw [hqt]; exact hc
+    · rw [hqt]; exact hp
+    · omega
+    · simp only [Simple.hit]; rw [hmsg, hat, hqt]
+  · split at hhit <;> cases hhit
+
+
+/-- What `set` stores is the message with the answer-section TTLs raised to `x`; `x = 0` (nothing
+raised) unless the override is on and the message is not SERVFAIL. -/
+theorem prepStore_stored_answer (cfg : Cfg) (qt : Nat) (m : Msg) (life : Nat)
+    (h : (prepStore cfg qt m).2 = some life) :
+    ∃ x, (prepStore cfg qt m).1 = { m with answer := m.answer.map (raiseTTL x) } ∧
+      ((cfg.override = false ∨ m.rcode = rcServFail) → x = 0) := by
+  have hid : m.answer.map (raiseTTL 0) = m.answer := by
+    have : raiseTTL 0 = id := by funext r; simp [raiseTTL]
+    rw [this, List.map_id]
+  unfold prepStore at h ⊢
+  split at h
+  · cases h
+  · rename_i hc
+    split at h
+    · rename_i ho
+      rw [if_neg hc, if_pos ho]
+      refine ⟨_, rfl, ?_⟩
+      intro hor
+      rcases hor with hf | hs
+      · rw [ho.1] at hf; cases hf
+      · exact absurd hs ho.2
+    · rename_i ho
+      rw [if_neg hc, if_neg ho]
+      exact ⟨0, by rw [hid], fun _ => rfl⟩
+
+theorem map_setTTL_raise (t x : Nat) (rs : List RR) : (rs.map (raiseTTL x)).map (setTTL t) = rs.map (setTTL t) := by
+  rw [List.map_map]
+  apply List.map_congr_left
+  intro r _
+  simp [setTTL, raiseTTL]
+
+/-- **simple_served_ttl_end_to_end.**  The TTL clause against the *upstream's* records.  After any
+history, a response served from cache consists of the records of the upstream answer `a0` given at
+`now0` to an earlier query of the history for the same question (OPT dropped), all with one TTL `t`;
+`t` is at most each authority/additional record's original TTL minus the time `now - now0` spent in
+the cache, rounded, floor zero; for answer-section records the same holds with the original TTL
+raised to the override value `x`, and `x = 0` — no exception at all — unless the minimum-TTL
+override is on and the answer is not SERVFAIL. -/
+theorem simple_served_ttl_end_to_end (cfg : Cfg) (evs : List Ev) (now : Nat) (q : Req) (a : Msg)
+    (hhit : (Simple.step cfg (Simple.run cfg Store.empty evs) now q a).hit = true) :
+    ∃ now0 q0 a0 d0 t x, Ev.query now0 q0 a0 d0 ∈ evs ∧
+      q0.name.toLower = q.name.toLower ∧ q0.qtype = q.qtype ∧ q0.qclass = q.qclass ∧
+      (Simple.step cfg (Simple.run cfg Store.empty evs) now q a).resp.answer = a0.answer.map (setTTL t) ∧
+      (Simple.step cfg (Simple.run cfg Store.empty evs) now q a).resp.ns = a0.ns.map (setTTL t) ∧
+      (Simple.step cfg (Simple.run cfg Store.empty evs) now q a).resp.extra =
+        (a0.extra.filter (fun r => r.typ ≠ typOPT)).map (setTTL t) ∧
+      (∀ r ∈ a0.answer, r.typ ≠ typOPT → t ≤ leftRounded (max r.ttl x) (now - now0)) ∧
+      (∀ r ∈ a0.ns ++ a0.extra, r.typ ≠ typOPT → t ≤ leftRounded r.ttl (now - now0) ∧ t ≤ r.ttl) ∧
+      ((cfg.override = false ∨ a0.rcode = rcServFail) → x = 0) := by
+  obtain ⟨now0, q0, a0, d0, life, hmem, hn, hqt, hqc, _, _, _, hp, _, hresp⟩ :=
+    simple_hit_provenance cfg evs now q a hhit
+  obtain ⟨x, hst, hx⟩ := prepStore_stored_answer cfg q.qtype a0 life hp
+  obtain ⟨t, ha, hns, hex, hb, _⟩ := simple_ttl_bound (prepStore cfg q.qtype a0).1 (now - now0) q
+  rw [← hresp] at ha hns hex
+  refine ⟨now0, q0, a0, d0, t, x, hmem, hn, hqt, hqc, ?_, ?_, ?_, ?_, ?_, hx⟩
+  · rw [ha, hst]; exact map_setTTL_raise t x a0.answer
+  · rw [hns, hst]
+  · rw [hex, hst]
+  · intro r hr hn'
+    have hmem' : raiseTTL x r ∈ allRRs (prepStore cfg q.qtype a0).1 := by
+      rw [hst]; unfold allRRs
+      exact List.mem_append_left _ (List.mem_append_left _ (List.mem_map_of_mem hr))
+    exact (hb _ hmem' hn').1
+  · intro r hr hn'
+    have hmem' : r ∈ allRRs (prepStore cfg q.qtype a0).1 := by
+      rw [hst]; unfold allRRs
+      rcases List.mem_append.mp hr with h1 | h1
+      · exact List.mem_append_left _ (List.mem_append_right _ h1)
+      · exact List.mem_append_right _ h1
+    exact hb _ hmem' hn'
+
+
+
+def Ecs.stored (cfg : Cfg) (q : Req) (a : Msg) : Msg × Option Nat := prepStore cfg q.qtype (Ecs.rmHop a q.qtype q.do_)
+
+/-- Every entry of the ECS-aware cache stems from a query event of the history processed so far. -/
+def Ecs.InvH (cfg : Cfg) (pre : List Ev) (s : Store) : Prop :=
+  ∀ k e, s k = some e → ∃ now0 q0 a0 d0 life, Ev.query now0 q0 a0 d0 ∈ pre ∧
+    k = (if d0 then Ecs.keyDep q0 else Ecs.keyNo q0) ∧
+    e.msg = (Ecs.stored cfg q0 a0).1 ∧ (Ecs.stored cfg q0 a0).2 = some life ∧
+    e.at_ = now0 ∧ e.expAt = now0 + life
+
+theorem Ecs.invH_mono (cfg : Cfg) (pre ext : List Ev) (s : Store) (h : Ecs.InvH cfg pre s) :
+    Ecs.InvH cfg (pre ++ ext) s := by
+  intro k e he
+  obtain ⟨now0, q0, a0, d0, life, hm, rest⟩ := h k e he
+  exact ⟨now0, q0, a0, d0, life, List.mem_append_left _ hm, rest⟩
+
+theorem Ecs.invH_run (cfg : Cfg) (pre evs : List Ev) (s : Store) (h : Ecs.InvH cfg pre s) :
+    Ecs.InvH cfg (pre ++ evs) (Ecs.run cfg s evs) := by
+  induction evs generalizing pre s with
+  | nil => simpa [Ecs.run] using h
+  | cons ev evs ih =>
+    have happ : pre ++ ev :: evs = (pre ++ [ev]) ++ evs := by simp
+    rw [happ]
+    cases ev with
+    | evict k =>
+      apply ih
+      intro k' e he
+      by_cases hk : k' = k
+      · subst hk; simp at he
+      · rw [del_other s k k' hk] at he
+        exact Ecs.invH_mono cfg pre _ s h k' e he
+    | query now q a dep =>
+      apply ih
+      show Ecs.InvH cfg _ (Ecs.step cfg s now q a dep).store
+      unfold Ecs.step
+      split
+      · exact Ecs.invH_mono cfg pre _ s h
+      · split
+        · exact Ecs.invH_mono cfg pre _ s h
+        · rename_i life hp
+          intro k' e he
+          dsimp only at he
+          by_cases hk : k' = (if dep then Ecs.keyDep q else Ecs.keyNo q)
+          · subst hk
+            rw [put_same] at he
+            cases he
+            exact ⟨now, q, a, dep, life, by simp, rfl, rfl, hp, rfl, rfl⟩
+          · rw [put_other s _ k' _ hk] at he
+            exact Ecs.invH_mono cfg pre _ s h k' e he
+
+/-- The two ways a request can match an entry of the ECS-aware cache. -/
+def Ecs.Matches (q0 : Req) (d0 : Bool) (q : Req) : Prop :=
+  q0.name.toLower = q.name.toLower ∧ q0.qtype = q.qtype ∧ q0.qclass = q.qclass ∧ q0.do_ = q.do_ ∧
+  q0.fam6 = q.fam6 ∧
+  ((d0 = false ∧ q0.declined = q.declined) ∨
+   (d0 = true ∧ q.declined = false ∧ Ecs.effSubnet q0 = Ecs.effSubnet q))
+
+/-- **ecs_hit_provenance.**  After any history of the ECS-aware cache: a request answered from the
+cache is answered with what `set` made of the (hop-by-hop-filtered) answer `a0` to an earlier query
+`q0` of that history with the same case-folded name, qtype, qclass, DO bit and address family, and
+either `a0` was not ECS-dependent and both clients agree on declining ECS, or it was ECS-dependent,
+`q` does not decline ECS and both locations map to the same subnet.  The filtered `a0` was complete
+and cacheable for the asked type with non-zero lowest TTL, `now` is within the lifetime computed at
+`now0`, and the age is exactly `now - now0`. -/
+theorem ecs_hit_provenance (cfg : Cfg) (evs : List Ev) (now : Nat) (q : Req) (a : Msg) (dep : Bool)
+    (hhit : (Ecs.step cfg (Ecs.run cfg Store.empty evs) now q a dep).hit = true) :
+    ∃ now0 q0 a0 d0 life, Ev.query now0 q0 a0 d0 ∈ evs ∧ Ecs.Matches q0 d0 q ∧
+      isCacheable q.qtype (Ecs.rmHop a0 q.qtype q.do_) = true ∧
+      findLowestTTL (Ecs.rmHop a0 q.qtype q.do_) ≠ 0 ∧
+      (Ecs.stored cfg q0 a0).2 = some life ∧ now ≤ now0 + life ∧
+      (Ecs.step cfg (Ecs.run cfg Store.empty evs) now q a dep).resp =
+        Ecs.hit (Ecs.stored cfg q0 a0).1 (now - now0) q := by
+  have hinv := Ecs.invH_run cfg [] evs Store.empty (by intro k e h; cases h)
+  simp only [List.nil_append] at hinv
+  generalize Ecs.run cfg Store.empty evs = s at *
+  have key : ∀ k e, (k = Ecs.keyNo q ∨ (k = Ecs.keyDep q ∧ q.declined = false)) → s.live now k = some e →
+      ∃ now0 q0 a0 d0 life, Ev.query now0 q0 a0 d0 ∈ evs ∧ Ecs.Matches q0 d0 q ∧
+      isCacheable q.qtype (Ecs.rmHop a0 q.qtype q.do_) = true ∧
+      findLowestTTL (Ecs.rmHop a0 q.qtype q.do_) ≠ 0 ∧
+      (Ecs.stored cfg q0 a0).2 = some life ∧ now ≤ now0 + life ∧
+      Ecs.hit e.msg (now - e.at_) q = Ecs.hit (Ecs.stored cfg q0 a0).1 (now - now0) q := by
+    intro k e hk hl
+    obtain ⟨hsk, hexp⟩ := live_some s now k e hl
+    obtain ⟨now0, q0, a0, d0, life, hmem, hkey, hmsg, hp, hat, hex⟩ := hinv k e hsk
+    obtain ⟨h0, hc, _, _, _⟩ := prepStore_some cfg q0.qtype _ life hp
+    have hm : Ecs.Matches q0 d0 q := by
+      rcases hk with hk | ⟨hk, hd⟩
+      · rw [hk] at hkey
+        cases d0 with
+        | true => simp [Ecs.keyNo, Ecs.keyDep] at hkey
+        | false =>
+          have := (Ecs.keyNo_eq_iff q q0).mp (by simpa using hkey)
+          exact ⟨this.1.symm, this.2.1.symm, this.2.2.1.symm, this.2.2.2.1.symm, this.2.2.2.2.1.symm,
+            Or.inl ⟨rfl, this.2.2.2.2.2.symm⟩⟩
+      · rw [hk] at hkey
+        cases d0 with
+        | false => simp [Ecs.keyNo, Ecs.keyDep] at hkey
+        | true =>
+          have := (Ecs.keyDep_eq_iff q q0).mp (by simpa using hkey)
+          exact ⟨this.1.symm, this.2.1.symm, this.2.2.1.symm, this.2.2.2.1.symm, this.2.2.2.2.1.symm,
+            Or.inr ⟨rfl, hd, this.2.2.2.2.2.symm⟩⟩
+    refine ⟨now0, q0, a0, d0, life, hmem, hm, ?_, ?_, hp, by omega, by rw [hmsg, hat]⟩
+    · rw [← hm.2.1, ← hm.2.2.2.1]; exact hc
+    · rw [← hm.2.1, ← hm.2.2.2.1]; exact h0
+  unfold Ecs.step at hhit ⊢
+  split at hhit
+  · rename_i e hl
+    unfold Ecs.lookup at hl
+    split at hl
+    · rename_i e' hl'
+      cases hl
+      obtain ⟨now0, q0, a0, d0, life, h1, h2, h3, h4, h5, h6, h7⟩ := key _ e (Or.inl rfl) hl'
+      exact ⟨now0, q0, a0, d0, life, h1, h2, h3, h4, h5, h6, by simpa using h7⟩
+    · split at hl
+      · cases hl
+      · rename_i hd
+        have hd' : q.declined = false := by cases hq : q.declined <;> simp_all
+        obtain ⟨now0, q0, a0, d0, life, h1, h2, h3, h4, h5, h6, h7⟩ := key _ e (Or.inr ⟨rfl, hd'⟩) hl
+        exact ⟨now0, q0, a0, d0, life, h1, h2, h3, h4, h5, h6, by simpa using h7⟩
+  · split at hhit <;> cases hhit
+
+
+/-! ## A cached answer equals a fresh one (ECS-aware cache) -/
+
+/-- The upstream: its answer and `respIsECSDependent` (non-zero scope, name not in the fake list) as a
+function of what the ECS middleware forwards: the question (host case-folded by the initial
+middleware, qtype, qclass), the DO bit, and the subnet (family, prefix identity). -/
+abbrev Ecs.Up := String → Nat → Nat → Bool → Bool → Nat → Msg × Bool
+
+/-- The upstream's reaction to what the middleware forwards for `q`. -/
+def Ecs.upAt (up : Ecs.Up) (q : Req) : Msg × Bool :=
+  up (Ecs.host q) q.qtype q.qclass (Ecs.fwdDO q) q.fam6 (Ecs.effSubnet q)
+
+def Ecs.answerFor (up : Ecs.Up) (q : Req) : Msg := echo q (Ecs.upAt up q).1
+def Ecs.depFor (up : Ecs.Up) (q : Req) : Bool := (Ecs.upAt up q).2
+
+/-- Scope-honest upstream: an answer marked as not ECS-dependent is the answer for every subnet. -/
+def ScopeHonest (up : Ecs.Up) : Prop :=
+  ∀ h qt qc d f s s', (up h qt qc d f s).2 = false → up h qt qc d f s' = up h qt qc d f s
+
+/-- The DO bit only adds DNSSEC records: after the filtering the cache applies for a client without
+DO, the answers with and without DO coincide, and so does their ECS-dependence. -/
+def DOOnlyAdds (up : Ecs.Up) : Prop :=
+  ∀ h qt qc f s, (up h qt qc true f s).2 = (up h qt qc false f s).2 ∧
+    Ecs.rmHop (up h qt qc true f s).1 qt false = Ecs.rmHop (up h qt qc false f s).1 qt false
+
+def Ecs.runUp (cfg : Cfg) (up : Ecs.Up) : Store → List (Nat × Req ⊕ Key) → Store
+  | s, [] => s
+  | s, .inl (now, q) :: evs =>
+    Ecs.runUp cfg up (Ecs.step cfg s now q (Ecs.answerFor up q) (Ecs.depFor up q)).store evs
+  | s, .inr k :: evs => Ecs.runUp cfg up (s.del k) evs
+
+/-- The filtered upstream answer a request's response is built from. -/
+def Ecs.core (up : Ecs.Up) (q : Req) : Msg := Ecs.rmHop (Ecs.upAt up q).1 q.qtype q.do_
+
+theorem Ecs.rmHop_echo (q : Req) (m : Msg) (qt : Nat) (d : Bool) :
+    Ecs.rmHop (echo q m) qt d = echo q (Ecs.rmHop m qt d) := rfl
+
+def Ecs.InvUp (cfg : Cfg) (up : Ecs.Up) (s : Store) : Prop :=
+  ∀ k e, s k = some e → ∃ q0, k = (if Ecs.depFor up q0 then Ecs.keyDep q0 else Ecs.keyNo q0) ∧
+    e.msg = (prepStore cfg q0.qtype (echo q0 (Ecs.core up q0))).1 ∧
+    (prepStore cfg q0.qtype (echo q0 (Ecs.core up q0))).2 ≠ none
+
+theorem Ecs.invUp_run (cfg : Cfg) (up : Ecs.Up) (s : Store) (evs : List (Nat × Req ⊕ Key))
+    (h : Ecs.InvUp cfg up s) : Ecs.InvUp cfg up (Ecs.runUp cfg up s evs) := by
+  induction evs generalizing s with
+  | nil => exact h
+  | cons ev evs ih =>
+    cases ev with
+    | inr k =>
+      apply ih
+      intro k' e he
+      by_cases hk : k' = k
+      · subst hk; simp at he
+      · rw [del_other s k k' hk] at he; exact h k' e he
+    | inl p =>
+      apply ih
+      show Ecs.InvUp cfg up (Ecs.step cfg s p.1 p.2 (Ecs.answerFor up p.2) (Ecs.depFor up p.2)).store
+      unfold Ecs.step
+      split
+      · exact h
+      · split
+        · exact h
+        · rename_i life hp
+          intro k' e he
+          dsimp only at he
+          by_cases hk : k' = (if Ecs.depFor up p.2 then Ecs.keyDep p.2 else Ecs.keyNo p.2)
+          · subst hk
+            rw [put_same] at he
+            cases he
+            refine ⟨p.2, rfl, rfl, ?_⟩
+            show (prepStore cfg p.2.qtype (Ecs.rmHop (Ecs.answerFor up p.2) p.2.qtype p.2.do_)).2 ≠ none
+            rw [hp]; simp
+          · rw [put_other s _ k' _ hk] at he; exact h k' e he
+
+/-- The heart of the matter: two requests that can share an entry are built from the same filtered
+upstream answer. -/
+theorem Ecs.core_eq_of_matches (up : Ecs.Up) (hs : ScopeHonest up) (hd : DOOnlyAdds up) (q0 q : Req)
+    (hm : Ecs.Matches q0 (Ecs.depFor up q0) q) : Ecs.core up q0 = Ecs.core up q := by
+  obtain ⟨hn, hqt, hqc, hdo, hf, hcase⟩ := hm
+  have hh : Ecs.host q0 = Ecs.host q := hn
+  -- for the DO bit `q0` forwarded, the answer for `q`'s subnet is the one `q0` got
+  have hsub : up (Ecs.host q) q.qtype q.qclass (Ecs.fwdDO q0) q.fam6 (Ecs.effSubnet q) = Ecs.upAt up q0 := by
+    unfold Ecs.upAt
+    rw [hh, hqt, hqc, hf]
+    rcases hcase with ⟨hdep, _⟩ | ⟨_, _, hsn⟩
+    · apply hs
+      have : (Ecs.upAt up q0).2 = false := hdep
+      unfold Ecs.upAt at this
+      rw [hh, hqt, hqc, hf] at this
+      exact this
+    · rw [hsn]
+  unfold Ecs.core
+  by_cases hfd : Ecs.fwdDO q = Ecs.fwdDO q0
+  · have : Ecs.upAt up q = Ecs.upAt up q0 := by
+      rw [← hsub]; unfold Ecs.upAt; rw [hfd]
+    rw [this, hqt, hdo]
+  · -- the DO bits forwarded differ, so neither client asked for DO
+    have hq : q.do_ = false := by
+      cases h : q.do_
+      · rfl
+      · have h0 : q0.do_ = true := by rw [hdo, h]
+        simp [Ecs.fwdDO, h, h0] at hfd
+    have hq0 : q0.do_ = false := by rw [hdo, hq]
+    have hD := (hd (Ecs.host q) q.qtype q.qclass q.fam6 (Ecs.effSubnet q)).2
+    rw [hq, hq0, hqt, ← hsub]
+    unfold Ecs.upAt
+    cases h1 : Ecs.fwdDO q <;> cases h2 : Ecs.fwdDO q0
+    · exact absurd (h1.trans h2.symm) hfd
+    · exact hD
+    · exact hD.symm
+    · exact absurd (h1.trans h2.symm) hfd
+
+
+theorem Ecs.matches_of_key (q0 q : Req) (d0 : Bool) (k : Key)
+    (hk : k = Ecs.keyNo q ∨ (k = Ecs.keyDep q ∧ q.declined = false))
+    (hkey : k = (if d0 then Ecs.keyDep q0 else Ecs.keyNo q0)) : Ecs.Matches q0 d0 q := by
+  rcases hk with hk | ⟨hk, hd⟩
+  · rw [hk] at hkey
+    cases d0 with
+    | true => simp [Ecs.keyNo, Ecs.keyDep] at hkey
+    | false =>
+      have := (Ecs.keyNo_eq_iff q q0).mp (by simpa using hkey)
+      exact ⟨this.1.symm, this.2.1.symm, this.2.2.1.symm, this.2.2.2.1.symm, this.2.2.2.2.1.symm,
+        Or.inl ⟨rfl, this.2.2.2.2.2.symm⟩⟩
+  · rw [hk] at hkey
+    cases d0 with
+    | false => simp [Ecs.keyNo, Ecs.keyDep] at hkey
+    | true =>
+      have := (Ecs.keyDep_eq_iff q q0).mp (by simpa using hkey)
+      exact ⟨this.1.symm, this.2.1.symm, this.2.2.1.symm, this.2.2.2.1.symm, this.2.2.2.2.1.symm,
+        Or.inr ⟨rfl, hd, this.2.2.2.2.2.symm⟩⟩
+
+/-- **ecs_hit_equals_fresh.**  For every upstream that is a function of what the ECS middleware
+forwards (question, DO bit, family and subnet of the client's location), is scope-honest and lets DO
+only add DNSSEC records; every history of requests (any names, types, classes, DO/AD/CD/EDNS
+settings, locations, declined ECS), clock readings and evictions; and every further request `q` at
+any time: the response — from either cache or from upstream — has the same rcode, flags and records
+(OPT and TTL values aside) as the response an empty cache gives to `q`. -/
+theorem ecs_hit_equals_fresh (cfg : Cfg) (up : Ecs.Up) (hs : ScopeHonest up) (hd : DOOnlyAdds up)
+    (evs : List (Nat × Req ⊕ Key)) (now : Nat) (q : Req) :
+    SameModTTL
+      (Ecs.step cfg (Ecs.runUp cfg up Store.empty evs) now q (Ecs.answerFor up q) (Ecs.depFor up q)).resp
+      (Ecs.step cfg Store.empty now q (Ecs.answerFor up q) (Ecs.depFor up q)).resp := by
+  have hinv := Ecs.invUp_run cfg up Store.empty evs (by intro k e h; cases h)
+  generalize Ecs.runUp cfg up Store.empty evs = s at *
+  have hfresh : (Ecs.step cfg Store.empty now q (Ecs.answerFor up q) (Ecs.depFor up q)).resp =
+      Ecs.setAD (prepStore cfg q.qtype (echo q (Ecs.core up q))).1 q := by
+    unfold Ecs.step Ecs.lookup
+    simp only [Store.live, Store.empty]
+    split
+    · rename_i h; split at h <;> cases h
+    · split <;> rfl
+  rw [hfresh]
+  have key : ∀ k e, (k = Ecs.keyNo q ∨ (k = Ecs.keyDep q ∧ q.declined = false)) → s.live now k = some e →
+      SameModTTL (Ecs.hit e.msg (now - e.at_) q) (Ecs.setAD (prepStore cfg q.qtype (echo q (Ecs.core up q))).1 q) := by
+    intro k e hk hl
+    obtain ⟨hsk, _⟩ := live_some s now k e hl
+    obtain ⟨q0, hkey, hmsg, _⟩ := hinv k e hsk
+    have hm := Ecs.matches_of_key q0 q _ k hk hkey
+    have hcore := Ecs.core_eq_of_matches up hs hd q0 q hm
+    rw [hmsg, hcore, hm.2.1]
+    obtain ⟨ans0, hs0, hst0⟩ := prepStore_echo_fields cfg q.qtype q0 (Ecs.core up q)
+    obtain ⟨ans1, hs1, hst1⟩ := prepStore_echo_fields cfg q.qtype q (Ecs.core up q)
+    rw [hs0, hs1]
+    refine ⟨rfl, rfl, rfl, rfl, rfl, rfl, ?_, ?_, ?_⟩
+    · show strip (ans0.map _) = strip ans1
+      rw [strip_map_setTTL, hst0, hst1]
+    · show strip ((echo q0 (Ecs.core up q)).ns.map _) = strip (echo q (Ecs.core up q)).ns
+      rw [strip_map_setTTL]; rfl
+    · show strip ((echo q0 (Ecs.core up q)).extra.map _) = strip (echo q (Ecs.core up q)).extra
+      rw [strip_map_setTTL]; rfl
+  unfold Ecs.step
+  split
+  · rename_i e hl
+    unfold Ecs.lookup at hl
+    split at hl
+    · rename_i e' hl'
+      cases hl
+      exact key _ e (Or.inl rfl) hl'
+    · split at hl
+      · cases hl
+      · rename_i hdd
+        have hd' : q.declined = false := by cases hq : q.declined <;> simp_all
+        exact key _ e (Or.inr ⟨rfl, hd'⟩) hl
+  · split <;> exact ⟨rfl, rfl, rfl, rfl, rfl, rfl, rfl, rfl, rfl⟩
+
+/-- Non-vacuity of the upstream hypotheses: an upstream that tailors AAAA answers to
+the subnet (and marks them ECS-dependent), answers everything else uniformly, and adds an RRSIG to
+the authority section when it sees DO. -/
+def exUp : Ecs.Up := fun _ qt _ d _ s =>
+  ({ exMsg with
+      answer := [{ typ := qt, ttl := 60, soaMin := 0, data := if qt = 28 then s else 7 }],
+      ns := if d then [{ typ := 46, ttl := 60, soaMin := 0, data := 9 }] else [],
+      extra := [] },
+   decide (qt = 28))
+
+example : ScopeHonest exUp := by
+  intro h qt qc d f s s' hdep
+  have : qt ≠ 28 := by simpa [exUp] using hdep
+  simp [exUp, this]
+
+example : DOOnlyAdds exUp := by
+  intro h qt qc f s
+  refine ⟨rfl, ?_⟩
+  have hsig : List.filter (Ecs.keepRR false 0) [({ typ := 46, ttl := 60, soaMin := 0, data := 9 } : RR)] = [] := by
+    decide
+  simp [exUp, Ecs.rmHop, hsig]
+
+/-- **ecs_served_ttl_end_to_end.**  The TTL clause against the upstream's records for the ECS-aware
+cache: a response served from cache consists of the records of the hop-by-hop-filtered upstream answer
+given at `now0` to an earlier matching query of the history, all with one TTL `t` that is at most each
+record's original TTL (answer section: raised to the override value `x`, `x = 0` unless the override is
+on and the answer is not SERVFAIL) minus the time `now - now0` spent in the cache, rounded, floor zero. -/
+theorem ecs_served_ttl_end_to_end (cfg : Cfg) (evs : List Ev) (now : Nat) (q : Req) (a : Msg) (dep : Bool)
+    (hhit : (Ecs.step cfg (Ecs.run cfg Store.empty evs) now q a dep).hit = true) :
+    ∃ now0 q0 a0 d0 t x, Ev.query now0 q0 a0 d0 ∈ evs ∧ Ecs.Matches q0 d0 q ∧
+      (Ecs.step cfg (Ecs.run cfg Store.empty evs) now q a dep).resp.answer =
+        (Ecs.rmHop a0 q.qtype q.do_).answer.map (setTTL t) ∧
+      (Ecs.step cfg (Ecs.run cfg Store.empty evs) now q a dep).resp.ns =
+        (Ecs.rmHop a0 q.qtype q.do_).ns.map (setTTL t) ∧
+      (Ecs.step cfg (Ecs.run cfg Store.empty evs) now q a dep).resp.extra =
+        (Ecs.rmHop a0 q.qtype q.do_).extra.map (setTTL t) ∧
+      (∀ r ∈ (Ecs.rmHop a0 q.qtype q.do_).answer, r.typ ≠ typOPT → t ≤ leftRounded (max r.ttl x) (now - now0)) ∧
+      (∀ r ∈ (Ecs.rmHop a0 q.qtype q.do_).ns ++ (Ecs.rmHop a0 q.qtype q.do_).extra, r.typ ≠ typOPT →
+        t ≤ leftRounded r.ttl (now - now0) ∧ t ≤ r.ttl) ∧
+      ((cfg.override = false ∨ a0.rcode = rcServFail) → x = 0) := by
+  obtain ⟨now0, q0, a0, d0, life, hmem, hm, _, _, hp, _, hresp⟩ := ecs_hit_provenance cfg evs now q a dep hhit
+  have hst0 : Ecs.stored cfg q0 a0 = prepStore cfg q.qtype (Ecs.rmHop a0 q.qtype q.do_) := by
+    unfold Ecs.stored; rw [hm.2.1, hm.2.2.2.1]
+  rw [hst0] at hp hresp
+  obtain ⟨x, hst, hx⟩ := prepStore_stored_answer cfg q.qtype _ life hp
+  obtain ⟨t, ha, hns, hex, hb, _⟩ := ecs_ttl_bound (prepStore cfg q.qtype (Ecs.rmHop a0 q.qtype q.do_)).1 (now - now0) q
+  rw [← hresp] at ha hns hex
+  refine ⟨now0, q0, a0, d0, t, x, hmem, hm, ?_, ?_, ?_, ?_, ?_, hx⟩
+  · rw [ha, hst]; exact map_setTTL_raise t x _
+  · rw [hns, hst]
+  · rw [hex, hst]
+  · intro r hr hn'
+    have hmem' : raiseTTL x r ∈ allRRs (prepStore cfg q.qtype (Ecs.rmHop a0 q.qtype q.do_)).1 := by
+      rw [hst]; unfold allRRs
+      exact List.mem_append_left _ (List.mem_append_left _ (List.mem_map_of_mem hr))
+    exact (hb _ hmem' hn').1
+  · intro r hr hn'
+    have hmem' : r ∈ allRRs (prepStore cfg q.qtype (Ecs.rmHop a0 q.qtype q.do_)).1 := by
+      rw [hst]; unfold allRRs
+      rcases List.mem_append.mp hr with h1 | h1
+      · exact List.mem_append_left _ (List.mem_append_right _ h1)
+      · exact List.mem_append_right _ h1
+    exact hb _ hmem' hn'
+
+/-- Non-vacuity: with `exUp`, a second client at another location is served the uniform answer from
+the cache, while for the tailored type it is not (a client at the same location is); a client without EDNS shares the entry of a client
+with EDNS and DO clear (the upstream saw DO for the former only). -/
+example : (Ecs.step ⟨0, false⟩ (Ecs.runUp ⟨0, false⟩ exUp Store.empty [.inl (0, exReq)]) 5
+    { exReq with subnet := 3 } (Ecs.answerFor exUp { exReq with subnet := 3 }) (Ecs.depFor exUp { exReq with subnet := 3 })).hit = true := by
+  decide +kernel
+example : Ecs.depFor exUp { exReq with qtype := 28 } = true ∧ Ecs.depFor exUp exReq = false ∧
+    (Ecs.answerFor exUp { exReq with qtype := 28 }).answer ≠ (Ecs.answerFor exUp { exReq with qtype := 28, subnet := 3 }).answer := by
+  decide
+example : (Ecs.step ⟨0, false⟩ (Ecs.runUp ⟨0, false⟩ exUp Store.empty [.inl (0, { exReq with do_ := false, edns := false })]) 5
+    { exReq with do_ := false } (Ecs.answerFor exUp { exReq with do_ := false }) (Ecs.depFor exUp { exReq with do_ := false })).hit = true := by
+  decide +kernel
+
 #print axioms simple_ttl_bound
 #print axioms ecs_ttl_bound
 #print axioms simple_ttl_counterexample
@@ -527,5 +1070,20 @@ example : DOConsistent (fun _ => { exMsg with extra := [] }) := by
 #print axioms prepStore_echo_fields
 #print axioms prepStore_echo_indep
 #print axioms simple_hit_equals_fresh
+#print axioms Simple.invH_mono
+#print axioms Simple.invH_run
+#print axioms simple_hit_provenance
+#print axioms prepStore_stored_answer
+#print axioms map_setTTL_raise
+#print axioms simple_served_ttl_end_to_end
+#print axioms Ecs.invH_mono
+#print axioms Ecs.invH_run
+#print axioms ecs_hit_provenance
+#print axioms Ecs.rmHop_echo
+#print axioms Ecs.invUp_run
+#print axioms Ecs.core_eq_of_matches
+#print axioms Ecs.matches_of_key
+#print axioms ecs_hit_equals_fresh
+#print axioms ecs_served_ttl_end_to_end
 
 end Agd.Cache
